@@ -1,0 +1,10 @@
+//go:build verif
+
+// Contracts for package sev, checked by /verif (govc). Comment-only; compiled only under -tags verif.
+package sev
+
+//@ func UnsignedSnp
+//@   modifies pbsrc, pbok
+//@   assigns nothing
+//@   ghostset snpImage = val(uefi)
+//@   ensures err == nil ==> result != nil && fresh(result)
